@@ -655,29 +655,36 @@ func checkMidicatHistory(c *mon.Ctx, h *hist, desc map[string]any, nports int) {
 			}
 			c.Count("mc_fifo_pairs_checked", 1)
 		}
-		// (ii) porcupine on the first delivered messages of the window (bounded: the general search is exponential)
-		const maxPairs = 8
-		first := map[int]bool{}
-		for i, x := range prs {
-			if i < maxPairs {
-				first[x.id] = true
-			}
+		// (ii) porcupine on groups of consecutively delivered messages of the window. Bounded to 6 pairs per
+		// group: the general search is exponential - 8 mutually overlapping Sends delivered in reverse call
+		// order (a legal history) already take porcupine minutes, 6 take 60 ms. Any subset of matched
+		// enqueue/dequeue pairs of a linearizable FIFO history is itself one, so the groups are sound.
+		const maxPairs = 6
+		starts := []int{0}
+		if len(prs) > 2*maxPairs {
+			starts = append(starts, len(prs)/2-maxPairs/2, len(prs)-maxPairs)
 		}
-		var sub []porcupine.Operation
-		for i := 0; i+1 < len(ops); i += 2 {
-			if first[ops[i+1].Output.(int)] {
-				sub = append(sub, ops[i], ops[i+1])
+		for _, st := range starts {
+			group := map[int]bool{}
+			for i := st; i < st+maxPairs && i < len(prs); i++ {
+				group[prs[i].id] = true
 			}
-		}
-		res := porcupine.CheckOperationsTimeout(qmodel, sub, 20*time.Second)
-		c.Count("mc_porcupine_histories", 1)
-		c.Count("mc_porcupine_operations", int64(len(sub)))
-		switch res {
-		case porcupine.Illegal:
-			violate("not-linearizable", fmt.Sprintf("sends and deliveries of window %d on port %d are not a linearizable FIFO queue history (%d operations)", k[0], k[1], len(sub)), "linearizable", "illegal")
-			return
-		case porcupine.Unknown:
-			c.Inconclusive("porcupine timed out on a window history")
+			var sub []porcupine.Operation
+			for i := 0; i+1 < len(ops); i += 2 {
+				if group[ops[i+1].Output.(int)] {
+					sub = append(sub, ops[i], ops[i+1])
+				}
+			}
+			res := porcupine.CheckOperationsTimeout(qmodel, sub, 60*time.Second)
+			c.Count("mc_porcupine_histories", 1)
+			c.Count("mc_porcupine_operations", int64(len(sub)))
+			switch res {
+			case porcupine.Illegal:
+				violate("not-linearizable", fmt.Sprintf("sends and deliveries of window %d on port %d are not a linearizable FIFO queue history (%d operations, deliveries %d.. of the window)", k[0], k[1], len(sub), st), "linearizable", "illegal")
+				return
+			case porcupine.Unknown:
+				c.Inconclusive("porcupine timed out on a window history")
+			}
 		}
 	}
 	// concurrency actually observed: overlapping Send calls
